@@ -679,3 +679,139 @@ func (p *Prog) SitesMayCall(target *ssa.Function) []ssa.CallInstruction {
 func ShortType(t types.Type) string {
 	return strings.ReplaceAll(t.String(), Mod+"/", "")
 }
+
+// ReachPhiAware searches the instructions executed after start (same function, no descent
+// into callees) for one satisfying target, not continuing past instructions satisfying avoid.
+// Unlike Search it tracks, along each path, the boolean phis whose value is known (a constant
+// operand for the predecessor taken, or another phi already known), so a branch on such a phi
+// takes only the matching edge: `for running := true; running; { … }` cannot be left before
+// an iteration has set the flag to false.
+func ReachPhiAware(start ssa.Instruction, target, avoid Pred) ssa.Instruction {
+	type node struct {
+		b   *ssa.BasicBlock
+		env string
+	}
+	type item struct {
+		b     *ssa.BasicBlock
+		known map[*ssa.Phi]bool
+	}
+	fn := start.Parent()
+	var boolPhis []*ssa.Phi
+	for _, b := range fn.Blocks {
+		for _, in := range b.Instrs {
+			if ph, ok := in.(*ssa.Phi); ok {
+				if bt, isB := ph.Type().Underlying().(*types.Basic); isB && bt.Kind() == types.Bool {
+					boolPhis = append(boolPhis, ph)
+				}
+			}
+		}
+	}
+	envKey := func(k map[*ssa.Phi]bool) string {
+		out := make([]byte, len(boolPhis))
+		for i, ph := range boolPhis {
+			v, ok := k[ph]
+			switch {
+			case !ok:
+				out[i] = '?'
+			case v:
+				out[i] = 'T'
+			default:
+				out[i] = 'F'
+			}
+		}
+		return string(out)
+	}
+	seen := map[node]bool{}
+	var hit ssa.Instruction
+	scan := func(b *ssa.BasicBlock, from int) bool {
+		for i := from; i < len(b.Instrs); i++ {
+			in := b.Instrs[i]
+			if target(in) {
+				if hit == nil {
+					hit = in
+				}
+				return false
+			}
+			if avoid != nil && avoid(in) {
+				return false
+			}
+		}
+		return true
+	}
+	var work []item
+	push := func(it item) {
+		b := it.b
+		iff := IfOf(b)
+		for k, s := range b.Succs {
+			if iff != nil && len(b.Succs) == 2 {
+				cond := iff.Cond
+				neg := false
+				if u, ok := cond.(*ssa.UnOp); ok && u.Op == token.NOT {
+					cond, neg = u.X, true
+				}
+				if ph, ok := cond.(*ssa.Phi); ok {
+					if bv, known := it.known[ph]; known {
+						if neg {
+							bv = !bv
+						}
+						if (k == 0) != bv {
+							continue
+						}
+					}
+				}
+			}
+			pi := -1
+			for i, p := range s.Preds {
+				if p == b {
+					pi = i
+				}
+			}
+			// phis of the successor, evaluated simultaneously for this edge
+			nk := map[*ssa.Phi]bool{}
+			for ph, v := range it.known {
+				if ph.Block() != s {
+					nk[ph] = v
+				}
+			}
+			for _, in := range s.Instrs {
+				ph, ok := in.(*ssa.Phi)
+				if !ok {
+					break
+				}
+				if pi < 0 || pi >= len(ph.Edges) {
+					continue
+				}
+				if bv, isC := ConstBool(ph.Edges[pi]); isC {
+					nk[ph] = bv
+				} else if q, isPhi := ph.Edges[pi].(*ssa.Phi); isPhi {
+					if bv, known := it.known[q]; known {
+						nk[ph] = bv
+					}
+				}
+			}
+			nn := node{s, envKey(nk)}
+			if !seen[nn] {
+				seen[nn] = true
+				work = append(work, item{s, nk})
+			}
+		}
+	}
+	sb := start.Block()
+	idx := 0
+	for i, in := range sb.Instrs {
+		if in == start {
+			idx = i + 1
+		}
+	}
+	if scan(sb, idx) {
+		push(item{sb, map[*ssa.Phi]bool{}})
+	}
+	for len(work) > 0 && hit == nil {
+		it := work[len(work)-1]
+		work = work[:len(work)-1]
+		if scan(it.b, 0) {
+			push(it)
+		}
+	}
+	return hit
+}
